@@ -329,9 +329,25 @@ class Machine(Interp):
             return ty.minmax()
         return (0, INF)
 
+    BUILTIN_MEM = {'memcpy': 'memcpy', 'memset': 'memset', 'memmove': 'memmove', 'memcmp': 'memcmp'}
+
     def call(self, st, name, args, node, rty):
         if name in self.summaries:
             return self.summaries[name](self, st, args, node, rty)
+        base = name[len('__builtin_'):] if name.startswith('__builtin_') else name
+        if name.startswith('__builtin_'):
+            if base in ('expect', 'expect_with_probability', 'assume_aligned') and args:
+                return [(st, Val(rty, args[0].t))]
+            if base in ('unreachable', 'trap'):
+                return []
+            if base == 'constant_p':
+                return [(st, Val(rty, ZERO))]
+            if base in ('bswap16', 'bswap32', 'bswap64') and args:
+                n = {'bswap16': 2, 'bswap32': 4, 'bswap64': 8}[base]
+                bs = to_bytes(args[0].t, n)
+                return [(st, Val(rty, st.canon(mk_cat(tuple(reversed(bs))))))]
+        if base in self.BUILTIN_MEM and self.port is not None and self.port.handles('lltd_port_' + base) and (self.prog.resolve(self.ix, name)[1] is None):
+            return self.port.call(self, st, 'lltd_port_' + base, args, node, rty)
         if self.port is not None and self.port.handles(name):
             return self.port.call(self, st, name, args, node, rty)
         ix, fn = self.prog.resolve(self.ix, name)
@@ -433,6 +449,8 @@ class Machine(Interp):
                     s2.objs.pop(oid, None)
             s2.stack = old_stack
             v = None
+            if ctl is not None and ctl[0] == 'goto':
+                raise Unsupported('goto in %s whose label is not a later statement of an enclosing block (backward or into a block)' % name)
             if ctl is not None and ctl[0] == 'return':
                 v = ctl[1]
             if v is None:
@@ -490,11 +508,27 @@ class Machine(Interp):
         cur = [(st, None)]
         done = []
         declared = []
-        for c in s.get('inner', []):
+        kids = s.get('inner', [])
+        for pos, c in enumerate(kids):
             if c.get('kind') == 'DeclStmt':
                 for d in c.get('inner', []):
                     if d.get('kind') == 'VarDecl' and d.get('storageClass') != 'static':
                         declared.append(d['id'])
+            if c.get('kind') == 'LabelStmt':
+                # forward jumps (`goto out;` clean-up idiom): paths that left this block towards this label resume here
+                lid = c.get('declId')
+                back = [(s2, ctl) for s2, ctl in done if ctl is not None and ctl[0] == 'goto' and ctl[1] == lid]
+                if back:
+                    done = [(s2, ctl) for s2, ctl in done if not (ctl is not None and ctl[0] == 'goto' and ctl[1] == lid)]
+                    cur = cur + [(s2, None) for s2, _ in back]
+                    if len(cur) > 1:
+                        cur = self.merge(cur)
+            if not cur:
+                # nothing flows into this statement; a later label may still be the target of a pending jump
+                pending = set(ctl[1] for _s, ctl in done if ctl is not None and ctl[0] == 'goto')
+                if not any(k.get('kind') == 'LabelStmt' and k.get('declId') in pending for k in kids[pos:]):
+                    break
+                continue
             nxt = []
             before = len(cur)
             for s2, ctl in cur:
@@ -506,8 +540,6 @@ class Machine(Interp):
             # anything that became equal meanwhile is merged at the end of the enclosing statement
             if len(cur) > 1 and len(nxt) != before:
                 cur = self.merge(cur)
-            if not cur:
-                break
         outs = cur + done
         if declared:
             for s2, ctl in outs:
@@ -554,6 +586,17 @@ class Machine(Interp):
 
     def s_BreakStmt(self, st, s):
         return [(st, ('break',))]
+
+    def s_GotoStmt(self, st, s):
+        return [(st, ('goto', s.get('targetLabelDeclId')))]
+
+    def s_LabelStmt(self, st, s):
+        inner = [c for c in s.get('inner', []) if isinstance(c, dict) and 'kind' in c]
+        return self.exec_stmt(st, inner[-1]) if inner else [(st, None)]
+
+    def s_AttributedStmt(self, st, s):
+        inner = [c for c in s.get('inner', []) if isinstance(c, dict) and c.get('kind') and not c['kind'].endswith('Attr')]
+        return self.exec_stmt(st, inner[-1]) if inner else [(st, None)]
 
     def s_ContinueStmt(self, st, s):
         return [(st, ('continue',))]
